@@ -1,6 +1,6 @@
 //! Shared vocabulary: violations, per-run outcome, statistics, the property interface.
 
-use std::collections::BTreeMap;
+use std::collections::{BTreeMap, HashSet};
 
 use crate::json::{self, J};
 use crate::rng::Rng;
@@ -41,6 +41,8 @@ pub struct Stats {
     pub steps: u64,
     pub skipped_unspecified: u64,
     pub lib_calls: u64,
+    /// distinct abstract states visited (hashes); a set used for counting only
+    pub states: HashSet<u64>,
 }
 
 impl Stats {
@@ -49,6 +51,11 @@ impl Stats {
     }
     pub fn probe_n(&mut self, k: &'static str, n: u64) {
         *self.probes.entry(k).or_insert(0) += n;
+    }
+    pub fn state(&mut self, h: u64) {
+        if self.states.len() < 4_000_000 {
+            self.states.insert(h);
+        }
     }
     pub fn fault(&mut self, k: &'static str) {
         *self.faults.entry(k).or_insert(0) += 1;
@@ -63,6 +70,11 @@ impl Stats {
         self.steps += o.steps;
         self.skipped_unspecified += o.skipped_unspecified;
         self.lib_calls += o.lib_calls;
+        for h in &o.states {
+            if self.states.len() < 16_000_000 {
+                self.states.insert(*h);
+            }
+        }
     }
 }
 
